@@ -168,6 +168,10 @@ class StateNode():
 
     def add_next(self, node, path, field, problems):
         transition_to = node.get(field)
+        if transition_to == "" and len(self.current_states_node) > 0:
+            problems.append(
+                f'{path}.{field} is "" but should be the name of a state'
+            )
         if transition_to and isinstance(transition_to, str):
             if len(self.current_states_node) > 0:
                 if transition_to in self.current_states_node[-1]:
